@@ -198,6 +198,9 @@ impl<'a> SiteWalker<'a> {
                         let mut why = "receiver kind not covered";
                         if chain_has_literal_optional_base(callee) {
                             why = "optional chain whose optional link hangs off a literal";
+                        } else if callee.get("$paren").is_some() {
+                            // `(recv.m)(..)`: the same call, but not one of the forms the statement lists
+                            why = "parenthesised callee";
                         } else if call_optional {
                             why = "optional invocation recv.m?.()";
                         } else if recv_kind_ok {
